@@ -4,7 +4,9 @@ from .util import call
 
 ID = 'C07'
 LEAN_MODULE = 'KernProofs.C07'
-THEOREMS = ['KM.C07.C07_reject_negative_start', 'KM.C07.C07_reject_end_beyond', 'KM.C07.C07_reject_end_before_start', 'KM.C07.C07_valid_pair', 'KM.C07.C07_stop_stage', 'KM.C07.C07_start_stage', 'KM.C07.C07_body', 'KM.C07.C07_rows_unmodified', 'KM.C07.intervals_lo_ge', 'KM.C07.C07_partition', 'KM.C07.C07_iterate', 'KM.exportParts_noRange']
+EXTRA_MODULES = ['KernProofs.C07Doc']
+THEOREMS = ['KM.C07.C07_reject_negative_start', 'KM.C07.C07_reject_end_beyond', 'KM.C07.C07_reject_end_before_start', 'KM.C07.C07_valid_pair', 'KM.C07.C07_stop_stage', 'KM.C07.C07_start_stage', 'KM.C07.C07_body', 'KM.C07.C07_rows_unmodified', 'KM.C07.intervals_lo_ge', 'KM.C07.C07_partition', 'KM.C07.C07_iterate', 'KM.exportParts_noRange',
+            'KM.C07D.startsOf_append', 'KM.C07D.cellStep_bar', 'KM.C07D.cellsLoop_bar', 'KM.C07D.rowStep_bar', 'KM.C07D.runRows_bar', 'KM.C07D.C07_measure_index']
 FINGERPRINTS = ['exporter.Exporter.export_string', 'exporter.Exporter.export_options_validator', 'importer.Importer', 'document.Document']
 RULE = ('generated **kern-only documents (1-4 spines, with/without opening barline, pickup, final barline, nested splits; quick 30 / thorough 300) '
         'x EVERY pair 1 <= a <= b <= M plus out-of-range pairs (a < 0, b > M, b < a): the data lines of the range export are compared with the data '
@@ -85,6 +87,16 @@ def explore(ctx, depth):
         ctx.seen({'text': case.text, 'clause': 'M'}, False)
         if implM != M:
             ctx.fail({'text': case.text, 'clause': 'measure count'}, 'number of measures differs from the barline structure of the source', impl=implM, expected=M)
+            continue
+        # the statement of theorem C07_measure_index on the real tree: the index is read off the tree line by line
+        from kernpy.core.tokens import TokenCategory as TC
+        acc = []
+        for s, st in enumerate(case.doc.tree.stages):
+            if any(n.token is not None and (n.token.category == TC.BARLINES or (TC.is_child(child=n.token.category, parent=TC.CORE) and not acc)) for n in st):
+                acc.append(s)
+        if list(case.doc.measure_start_tree_stages) != acc:
+            ctx.fail({'text': case.text, 'clause': 'measure index = barline structure of the tree'},
+                     'the measure index is not the list of stages holding a barline (first: a CORE token)', impl=list(case.doc.measure_start_tree_stages), expected=acc)
             continue
         it = call(lambda: list(case.doc))
         if M >= 1 and it != {'ok': list(range(1, M + 1))}:
